@@ -30,4 +30,6 @@ mod mutvec;
 #[cfg(kani)]
 mod vecs;
 #[cfg(kani)]
+mod slices;
+#[cfg(kani)]
 mod pool;
